@@ -29,16 +29,21 @@ JCfgAgain(e) ==
   LET p == Parse(e.toks, e.L) IN
   IF p.class # "WF" THEN U("Regex.to_cfg")
   ELSE IF Has(e, "G") THEN Chk({ Strip(w) : w \in CF!Lang(CF!Gram(e.G), e.L) } = p.lang, "Regex.to_cfg") ELSE Fl("Regex.to_cfg.noexc")
+(* An operand whose text the documentation does not settle (the empty text, "()", "a|": class UNSPEC) is taken with the
+   language the operand itself was observed to have (accA / accB): whichever reading the library gives it, the
+   combination must be built from that same reading. *)
 JComb(e) ==
   LET pa == Parse(e.toksA, e.L)
       pb == IF Has(e, "toksB") THEN Parse(e.toksB, e.L) ELSE pa
-  IN IF pa.class # "WF" \/ pb.class # "WF" THEN U(e.op)
-     ELSE IF Has(e, "exc") THEN Fl(e.op \o ".noexc")
-     ELSE LET expect == CASE e.op \in {"regex_union", "regex_or"} -> pa.lang \cup pb.lang
-                          [] e.op \in {"regex_concatenate", "regex_add"} -> RCat(pa.lang, pb.lang, e.L)
-                          [] e.op = "regex_kleene_star" -> RStar(pa.lang, e.L)
+      la == IF pa.class = "WF" THEN pa.lang ELSE ToSet(e.accA)
+      lb == IF pb.class = "WF" THEN pb.lang ELSE ToSet(e.accB)
+  IN IF pa.class = "IF" \/ pb.class = "IF" THEN U(e.op)
+     ELSE IF Has(e, "exc") THEN (IF pa.class = "WF" /\ pb.class = "WF" THEN Fl(e.op \o ".noexc") ELSE U(e.op))
+     ELSE LET expect == CASE e.op \in {"regex_union", "regex_or"} -> la \cup lb
+                          [] e.op \in {"regex_concatenate", "regex_add"} -> RCat(la, lb, e.L)
+                          [] e.op = "regex_kleene_star" -> RStar(la, e.L)
           IN Chk(ToSet(e.acc) = expect, e.op)
-             \cup Chk(ToSet(e.accA) = pa.lang /\ ToSet(e.accB) = pb.lang, e.op \o ".operands_unchanged")
+             \cup Chk(ToSet(e.accA) = la /\ ToSet(e.accB) = lb, e.op \o ".operands_unchanged")
 Judge(e) ==
   CASE e.op = "regex" -> JRegex(e)
     [] e.op = "regex_cfg_again" -> JCfgAgain(e)
